@@ -388,6 +388,21 @@ pub(crate) fn generate_eager_reader_param_type_artifact<TCompilationProfile: Com
         "".to_string()
     };
 
+    #[cfg(feature = "isographlabs_isograph_verif")]
+    crate::verif::rec_param_type(
+        db,
+        parent_entity_name,
+        match client_selectable {
+            SelectionType::Scalar(s) => s.name,
+            SelectionType::Object(o) => o.name,
+        },
+        ts_file_extension,
+        !variable_definitions.is_empty(),
+        &selection_set_for_parent_query,
+        &param_type_imports,
+        &loadable_fields,
+        updatable_fields,
+    );
     let param_type_content = format!(
         "{param_type_import_statement}\
         {start_update_imports}\
